@@ -1,6 +1,7 @@
 (* Property C12 — PES headers and timestamps per ISO 13818-1 2.4.3.6-7 (theorems only; proofs in Proofs/). *)
 From Coq Require Import ZArith List.
-Require Import Base.Bits Base.Iter Base.Wr Gen.Consts Gen.Types Gen.Preds Model.Clock Model.Pes Proofs.ClockProofs.
+Require Import Base.Bits Base.Iter Base.Wr Gen.Consts Gen.Types Gen.Preds Model.Clock Model.Pes Spec.PesSpec
+  Proofs.ClockProofs Proofs.PesProofs Proofs.PesRoundTrip Proofs.PesParseRef.
 Import ListNotations.
 Open Scope Z_scope.
 
@@ -17,3 +18,128 @@ Theorem C12_escr_roundtrip : forall base ext rest, 0 <= base < 2 ^ 33 -> 0 <= ex
   Ok (mk_cr base ext, mk_iter (bytes_of_items (enc_escr (mk_cr base ext)) ++ rest) 6).
 Proof. exact escr_roundtrip. Qed.
 Print Assumptions C12_escr_roundtrip.
+
+(* ClockReference.Duration(): inside the property's range (33-bit base, 9-bit extension) it is
+   base*10^9/90000 + ext*10^9/27000000 (each term truncated; Z.div = Z.quot on non-negative operands),
+   every int64 intermediate stays below 2^63, and the result lies less than 2 ns below the exact rational
+   value base/90kHz + ext/27MHz (both sides scaled by 27 000 000) *)
+Theorem C12_duration : forall base ext, 0 <= base < 2 ^ 33 -> 0 <= ext < 2 ^ 9 ->
+  let d := cr_duration (mk_cr base ext) in
+  d = base * 10 ^ 9 / 90000 + ext * 10 ^ 9 / 27000000
+  /\ 0 <= base * 10 ^ 9 < 2 ^ 63 /\ 0 <= ext * 10 ^ 9 < 2 ^ 63
+  /\ 0 <= base * 10 ^ 9 / 90000 < 2 ^ 63 /\ 0 <= ext * 10 ^ 9 / 27000000 < 2 ^ 63 /\ 0 <= d < 2 ^ 63
+  /\ 27000000 * d <= 300 * (base * 10 ^ 9) + ext * 10 ^ 9 < 27000000 * (d + 2).
+Proof. exact duration_spec. Qed.
+Print Assumptions C12_duration.
+
+(* PES_packet_length as written: 0 for the video stream ids 0xE0 / 0xFD or when payload + optional header
+   exceed 65535, otherwise payload + optional header length (no optional header for 0xBE / 0xBF);
+   IsVideoStream, hasPESOptionalHeader and calcPESOptionalHeaderLength are the definitions regenerated from data_pes.go *)
+Theorem C12_length_rule : forall h n,
+  pes_packet_length h n =
+    (if orb (PESHeader_StreamID h =? 224) (PESHeader_StreamID h =? 253) then 0
+     else if n + opt_len_of h >? 65535 then 0
+     else n + opt_len_of h)
+  /\ forall its k, enc_pes_header h n = Ok (its, k) ->
+       exists rest, its = [WBits 24 1; wu8 (PESHeader_StreamID h); wu16 (pes_packet_length h n)] ++ rest.
+Proof. intros h n. split; [apply length_rule | apply enc_pes_header_head]. Qed.
+Print Assumptions C12_length_rule.
+
+(* payload boundaries: for every byte string on which parsePESHeader succeeds (header h, whatever it contains),
+   with L = PES_packet_length and hdr = 3 + PES_header_data_length (0 without optional header):
+   L > 0: the data are exactly the L - hdr bytes behind the header, an error when fewer are available or when
+   L ends inside the header; L = 0: everything up to the end of the unit *)
+Theorem C12_payload : forall bs h ds de i',
+  parse_pes_header (mk_iter bs 3) = Ok ((h, ds, de), i') ->
+  let L := PESHeader_PacketLength h in
+  let hdr := match PESHeader_OptionalHeader h with
+             | Some oh => 3 + PESOptionalHeader_HeaderLength oh | None => 0 end in
+  let len := Z.of_nat (length bs) in
+  bytes_ok bs ->
+  (L > 0 -> hdr <= L -> 6 + L <= len ->
+     parse_pes_data_bytes bs = Ok {| PESData_Data := slice bs (6 + hdr) (6 + L); PESData_Header := Some h |}
+     /\ Z.of_nat (length (slice bs (6 + hdr) (6 + L))) = L - hdr) /\
+  (L > 0 -> len < 6 + L -> parse_pes_data_bytes bs = Err E_generic) /\
+  (L > 0 -> L < hdr -> parse_pes_data_bytes bs = Err E_generic) /\
+  (L = 0 -> 6 + hdr <= len ->
+     parse_pes_data_bytes bs = Ok {| PESData_Data := skipn (Z.to_nat (6 + hdr)) bs; PESData_Header := Some h |}) /\
+  (L = 0 -> len < 6 + hdr -> parse_pes_data_bytes bs = Err E_generic).
+Proof. exact payload_rule. Qed.
+Print Assumptions C12_payload.
+
+(* parse (write v) = observed v, full strength: for EVERY writable header v (Spec.PesSpec.wf_header: any stream id;
+   for ids with an optional header every field within its width - all 2^2 scrambling values, all flag
+   combinations, PTS/DTS/ESCR over all 2^33 x 2^9 values, ES rate 0..2^22-1, every trick mode, copy info,
+   16 bytes of private data, sequence counter, P-STD buffer, extension 2 of 0..127 bytes; the two parts the writer
+   does not support, CRC and pack header, absent) and every payload: writePESHeader succeeds, reports the number of
+   bytes it produced, and parsePESData on header ++ payload returns exactly the payload and the header with its derived
+   fields filled in (marker bits '10', PES_header_data_length = sum of the parts present, PES_extension_field_length,
+   PES_packet_length by the length rule). *)
+Theorem C12_parse_write_header : forall h payload, wf_header h -> bytes_ok payload ->
+  exists its n, enc_pes_header h (Z.of_nat (length payload)) = Ok (its, n) /\
+    n = Z.of_nat (length (bytes_of_items its)) /\
+    parse_pes_data_bytes (bytes_of_items its ++ payload) =
+      Ok {| PESData_Data := payload;
+            PESData_Header := Some (observed_header h (Z.of_nat (length payload))) |}.
+Proof. exact parse_write_header. Qed.
+Print Assumptions C12_parse_write_header.
+
+(* the regenerated calcPESOptionalHeaderDataLength (uint8 arithmetic, from data_pes.go) never wraps on a writable
+   header: it is the sum of the sizes of the parts present, at most 170 *)
+Theorem C12_header_data_length : forall h, wf_opt h ->
+  calcPESOptionalHeaderDataLength h = ref_header_data_length h /\ 0 <= ref_header_data_length h <= 170.
+Proof. intros h W. split; [apply calc_len_eq | apply ref_len_range]; exact W. Qed.
+Print Assumptions C12_header_data_length.
+
+(* decoding, full strength: parsePESData on the ISO 13818-1 reference encoding (Spec.PesSpec.ref_pes_bytes, written as
+   (width, value) fields from 2.4.3.6) of ANY well-formed header (Spec.PesSpec.wf_all) returns every field - including
+   the parts the library cannot write: any 16-bit previous_PES_packet_CRC, a pack_header_field with its pack header
+   bytes, and any number of stuffing bytes that PES_header_data_length can express - for every stream id the library
+   gives an optional header, every PES_packet_length L and anything behind the header:
+   L = 0: all the bytes behind the header; L > 0: exactly L - (3 + PES_header_data_length) bytes; an error when L ends
+   inside the header or beyond the available bytes. *)
+Theorem C12_parse_ref : forall sid L h pack st rest,
+  0 <= sid < 256 -> 0 <= L < 65536 -> lib_has_optional_header sid = true -> wf_all h pack st ->
+  let bs := ref_pes_bytes sid L h pack st ++ rest in
+  let H := {| PESHeader_OptionalHeader := Some (observed_all h st); PESHeader_PacketLength := L; PESHeader_StreamID := sid |} in
+  let hdr := 3 + ref_header_data_length_all h + Z.of_nat st in
+  (L = 0 -> parse_pes_data_bytes bs = Ok {| PESData_Data := rest; PESData_Header := Some H |}) /\
+  (L > 0 -> hdr <= L -> L - hdr <= Z.of_nat (length rest) ->
+     parse_pes_data_bytes bs = Ok {| PESData_Data := firstn (Z.to_nat (L - hdr)) rest; PESData_Header := Some H |}) /\
+  (L > 0 -> L < hdr \/ Z.of_nat (length rest) < L - hdr -> parse_pes_data_bytes bs = Err E_generic).
+Proof. exact parse_ref. Qed.
+Print Assumptions C12_parse_ref.
+
+(* the same for the stream ids without optional header (padding_stream 0xBE, private_stream_2 0xBF) *)
+Theorem C12_parse_ref_noopt : forall sid L rest,
+  0 <= sid < 256 -> 0 <= L < 65536 -> lib_has_optional_header sid = false ->
+  let bs := ref_pes_bytes_noopt sid L ++ rest in
+  let H := {| PESHeader_OptionalHeader := None; PESHeader_PacketLength := L; PESHeader_StreamID := sid |} in
+  (L = 0 -> parse_pes_data_bytes bs = Ok {| PESData_Data := rest; PESData_Header := Some H |}) /\
+  (L > 0 -> L <= Z.of_nat (length rest) ->
+     parse_pes_data_bytes bs = Ok {| PESData_Data := firstn (Z.to_nat L) rest; PESData_Header := Some H |}) /\
+  (L > 0 -> Z.of_nat (length rest) < L -> parse_pes_data_bytes bs = Err E_generic).
+Proof. exact parse_ref_noopt. Qed.
+Print Assumptions C12_parse_ref_noopt.
+
+(* encoding: for every writable optional header writePESOptionalHeader emits exactly the reference encoding
+   (no pack header, no stuffing), bit for bit, and reports its length *)
+Theorem C12_write_ref : forall h, wf_opt h ->
+  exists its n, enc_pes_optional_header h = Ok (its, n) /\
+    bytes_of_items its = ref_opt_bytes h [] 0 /\ n = Z.of_nat (length (ref_opt_bytes h [] 0)).
+Proof. exact write_ref. Qed.
+Print Assumptions C12_write_ref.
+
+(* ... and writePESHeader emits the reference encoding of the whole packet header: start code prefix, stream id,
+   PES_packet_length by the length rule, then (for ids with an optional header) the optional header *)
+Theorem C12_write_ref_header : forall h n, wf_header h -> 0 <= n ->
+  let sid := PESHeader_StreamID h in
+  let L := ref_packet_length sid (ref_opt_len h) n in
+  exists its k, enc_pes_header h n = Ok (its, k) /\ k = Z.of_nat (length (bytes_of_items its)) /\
+    bytes_of_items its =
+      match PESHeader_OptionalHeader h with
+      | Some oh => if lib_has_optional_header sid then ref_pes_bytes sid L oh [] 0 else ref_pes_bytes_noopt sid L
+      | None => ref_pes_bytes_noopt sid L
+      end.
+Proof. exact write_ref_header. Qed.
+Print Assumptions C12_write_ref_header.
